@@ -100,6 +100,17 @@ def parseTopo? (s : String) : Option (List (Nat × Nat)) :=
     | [c, n] => do some (← parseNat? c, ← parseNat? n)
     | _ => none
 
+/-- The model keeps monitors and trainers as functions (proof friendly); every operation wraps
+them in new closures.  The driver re-tabulates them after each operation — extensionally the
+identity on the indices `< nMons` / `< nTrainers` that are ever consulted — so that a lookup
+stays O(1) instead of re-evaluating the whole history. -/
+@[noinline] def monTable (tbl : Array Monitor) : Nat → Monitor := fun i => tbl.getD i noMonitor
+@[noinline] def trainerTable (tbl : Array Trainer) : Nat → Trainer := fun i => tbl.getD i noTrainer
+
+def normalize (s : State) : State :=
+  { s with mons := monTable ((Array.range s.nMons).map s.mons),
+           trainers := trainerTable ((Array.range s.nTrainers).map s.trainers) }
+
 def dstep (st : State) (line : String) : State × String :=
   let toks := splitNonEmpty line " "
   match toks with
@@ -110,7 +121,8 @@ def dstep (st : State) (line : String) : State × String :=
   | _ =>
     match parseOp? toks with
     | some op =>
-      let (st', mo) := step st op
+      let (st1, mo) := step st op
+      let st' := normalize st1
       (st', s!"M {showOut mo} | {dump st' false} || S {showOut (specOut st op mo)} | {dump st' true}")
     | none => (st, "bad-op")
 
